@@ -6,6 +6,7 @@ for i in range(1,len(parts),2): d[parts[i]]=parts[i+1].strip()
 intro={
 "h":"**Eighth round (20 changes).** The prompt told the sub-agent to assume a thorough randomized, model-based tester (every entry point, several handles and collections, concurrency, kills, real-time expiry) and to aim for a violation such a tester would plausibly still not reach: a COMBINATION the property's quantification includes but that is unlikely to be combined by chance (a boundary value of a size, count or time, a name or path spelling, an argument equal to the stored state, an option nobody passes).\n{n} of 20 were caught at once, {m} were missed at first:",
 "i":"**Ninth round (20 changes).** The prompt listed every earlier change to that property as already caught and asked for something ELSE: read the relevant source files end to end, list the functions earlier changes modified, and put the mistake into a path none of them touched.\n{n} of 20 were caught at once, {m} were missed at first:",
+"k":"**Eleventh round (20 changes).** Same instruction; the list of what the tester already does now also named quiet periods, handles closed under calls in flight, results compared again later and imported documents with unusual but valid metadata.\n{n} of 20 were caught at once, {m} were missed at first:",
 "j":"**Tenth round (20 changes).** Same instruction as the ninth with the longer list (iterators held open and cancelled contexts named among what the tester already does).\n{n} of 20 were caught at once, {m} were missed at first:",
 }
 for k in sys.argv[1:]:
